@@ -77,6 +77,27 @@ SearchCoherent ==
                          = { <<a, a>> : a \in 0..n }
                     /\ { <<a, b>> \in (0..(n + 1)) \X (0..(n + 1)) : RangeOk(T, P, a, b) }
                          = { <<a, a>> : a \in 0..n }
+       (* refinement: the range of a pattern lies inside the range of each of its prefixes, and the  *)
+       (* one-byte extensions of an occurring prefix partition the part of its range that can be     *)
+       (* extended (what sa_equal_range / sa_match_continuation rely on)                             *)
+       /\ (R # {} /\ Len(P) >= 1) =>
+             LET Q == SubSeq(P, 1, Len(P) - 1) IN
+             /\ RangeLo(T, Q) <= lo /\ hi <= RangeHi(T, Q)
+             /\ EqRangeAns(Q, RangeLo(T, Q), RangeHi(T, Q), <<P[Len(P)]>>, << <<lo, hi>> >>)
+             /\ ~EqRangeAns(Q, RangeLo(T, Q), RangeHi(T, Q), <<P[Len(P)]>>, << <<lo, hi + 1>> >>)
+       /\ (R = {} /\ Len(P) >= 1 /\ Occurrences(T, SubSeq(P, 1, Len(P) - 1)) # {}) =>
+             LET Q == SubSeq(P, 1, Len(P) - 1) IN
+             /\ EqRangeAns(Q, RangeLo(T, Q), RangeHi(T, Q), <<P[Len(P)]>>, << <<lo, lo>> >>)
+             /\ ~EqRangeAns(Q, RangeLo(T, Q), RangeHi(T, Q), <<P[Len(P)]>>, << <<0, 1>> >>)
+       (* longest match: the defined answer is accepted, a shorter or longer length is not *)
+       /\ LET d == MatchDepth(T, P) IN
+             IF d >= 1
+             THEN /\ \A i \in Occurrences(T, SubSeq(P, 1, d)) : LongestAns(<<P>>, <<0>>, << <<d, i>> >>, 1)
+                  /\ ~LongestAns(<<P>>, <<0>>, << <<>> >>, 1)
+                  /\ \A i \in Positions(T) : ~LongestAns(<<P>>, <<0>>, << <<d + 1, i>> >>, 1)
+                  /\ d >= 2 => \A i \in Positions(T) : ~LongestAns(<<P>>, <<0>>, << <<d - 1, i>> >>, 1)
+                  /\ LongestAns(<<P>>, <<0>>, << <<>> >>, d + 1)
+             ELSE LongestAns(<<P>>, <<0>>, << <<>> >>, 1)
        (* the empty pattern occurs everywhere: the whole range *)
        /\ P = <<>> => (lo = 0 /\ hi = n)
        (* positions / dictionary matcher formulations *)
